@@ -241,9 +241,10 @@ def proof_step(pid, extra_targets=()):
 
 def build_model_runner():
     """Extraction + OCaml build of the executable model (only when the model changed)."""
-    ok, log = coq_make(["theories/Model/Tables.vo", "theories/Model/Driver.vo"]
-                       if os.path.exists(os.path.join(THEORIES, "Model", "Driver.v"))
-                       else ["theories/Model/Tables.vo"])
+    # everything Extract.v may import: the whole hand-written model and the generated files
+    targets = sorted("theories/%s/%s.vo" % (sub, f[:-2]) for sub in ("Model", "Gen")
+                     for f in os.listdir(os.path.join(THEORIES, sub)) if f.endswith(".v"))
+    ok, log = coq_make(targets)
     if not ok:
         raise BuildError("the model does not compile", log)
     with Lock("extract"):
